@@ -181,3 +181,23 @@ def sany(module):
     ok = p.returncode == 0 and "Semantic errors" not in p.stdout and "Parse Error" not in p.stdout \
         and "Fatal errors" not in p.stdout and "Could not find module" not in p.stdout
     return ok, p.stdout
+
+
+def tlapm(module_rel, scratch, timeout=900):
+    """Check a TLAPS proof module (path relative to spec/); returns the number of proved obligations."""
+    import shutil
+    src = os.path.join(SPEC_DIR, module_rel)
+    work = os.path.join(scratch, "tlapm")
+    os.makedirs(work, exist_ok=True)
+    dst = os.path.join(work, os.path.basename(src))
+    shutil.copy(src, dst)
+    try:
+        p = subprocess.run(["tlapm", "--threads", "4", os.path.basename(dst)], cwd=work, stdout=subprocess.PIPE, stderr=subprocess.STDOUT,
+                           timeout=timeout, text=True, errors="replace")
+    except subprocess.TimeoutExpired:
+        raise MachineryError("tlapm timeout on " + module_rel)
+    m = re.search(r"All (\d+) obligations? proved", p.stdout)
+    shutil.rmtree(work, ignore_errors=True)
+    if not m:
+        raise MachineryError("tlapm did not prove %s:\n%s" % (module_rel, p.stdout[-2000:]))
+    return int(m.group(1))
